@@ -26,26 +26,38 @@ EXTENDS Integers, Sequences, FiniteSets, TLC
 
 CONSTANTS Kind,        \* "sampler" | "quick" | "analyzer"
           Variant,     \* "pinned" | "fixed" | "fixedps"
-          MutatePS     \* TRUE: the PostSelection object may be mutated in place
+          MutatePS,    \* TRUE: the PostSelection object may be mutated in place
+          Feat         \* enabled reconfiguration actions (the complete graph over ALL of them together is too large; it is
+                       \* explored per feature set): subset of {"circuit", "edit", "param", "input", "source", "backend", "ps",
+                       \* "pnr", "shared_source", "shared_detector", "analyzer_ps"}
 
 VARIABLES w, cfg, snap, cached, cont, used, last, err, an
 vars == <<w, cfg, snap, cached, cont, used, last, err, an>>
 Circs == {"A", "B", "C"}          \* A, B: herald on the same mode with 0 / 1 photons; C: herald on another mode
 HeraldOf(c) == IF c = "A" THEN 0 ELSE IF c = "B" THEN 1 ELSE 2
 UTok(c) == <<w.pv, w.e[c]>>
-PSTok == IF cfg.ps = 0 THEN 0 ELSE 1 + w.psc
+\* post-selection held by the quick sampler: 0 none, 1 the PostSelection object X (rule content w.psc, mutable in place),
+\* 2 / 3 two closures made by ONE factory (same code object, different captured mode)
+PSTok == IF cfg.ps = 0 THEN 0 ELSE IF cfg.ps = 1 THEN 1 + w.psc ELSE cfg.ps + 1
+\* source held by the sampler: cfg.src = 0 a Source created for it with brightness token cfg.br; cfg.src = 1 the shared Source
+\* object S whose brightness / purity (w.sb, w.sp) can be modified in place
+SrcTok == IF cfg.src = 0 THEN <<cfg.br, 1>> ELSE <<w.sb, w.sp>>
+\* detector: cfg.det = 0 the sampler's own perfect detector, 1 the shared Detector object D whose efficiency token w.deff is mutable
+DetTok == IF cfg.det = 0 THEN 1 ELSE w.deff
 DistKey == IF Kind = "quick" THEN <<UTok(cfg.circ), HeraldOf(cfg.circ), cfg.inp, PSTok, cfg.pnr>>
-           ELSE <<UTok(cfg.circ), HeraldOf(cfg.circ), cfg.inp, cfg.br>>
+           ELSE <<UTok(cfg.circ), HeraldOf(cfg.circ), cfg.inp, SrcTok>>
+\* what a sampling call's result depends on: the distribution AND the detector as it is NOW
+SampleKey == IF Kind = "sampler" THEN <<DistKey, DetTok>> ELSE <<DistKey, 1>>
 SnapOf ==
    IF Kind = "quick"
    THEN <<UTok(cfg.circ), cfg.inp, IF Variant = "fixedps" THEN PSTok ELSE cfg.ps, cfg.pnr>> \o (IF Variant = "pinned" THEN <<>> ELSE <<HeraldOf(cfg.circ)>>)
-   ELSE <<UTok(cfg.circ), cfg.inp, cfg.be, cfg.br>> \o (IF Variant = "pinned" THEN <<>> ELSE <<HeraldOf(cfg.circ)>>)
+   ELSE <<UTok(cfg.circ), cfg.inp, cfg.be, SrcTok>> \o (IF Variant = "pinned" THEN <<>> ELSE <<HeraldOf(cfg.circ)>>)
 
-Init == /\ w = [pv |-> 1, e |-> [c \in Circs |-> 0], psc |-> 0]
-        /\ cfg = [circ |-> "A", inp |-> 1, br |-> 1, be |-> 1, ps |-> 0, pnr |-> 1]
+Init == /\ w = [pv |-> 1, e |-> [c \in Circs |-> 0], psc |-> 0, sb |-> 1, sp |-> 1, deff |-> 1, aps |-> 0]
+        /\ cfg = [circ |-> "A", inp |-> 1, br |-> 1, be |-> 1, ps |-> 0, pnr |-> 1, src |-> 0, det |-> 0]
         /\ snap = <<>> /\ cached = <<>> /\ cont = <<>> /\ used = <<>>
         /\ last = <<"init", 0>> /\ err = FALSE
-        /\ an = [has |-> FALSE, res |-> FALSE, exp |-> FALSE]
+        /\ an = [has |-> FALSE, res |-> FALSE, exp |-> FALSE, psused |-> 0]
 
 Frame == UNCHANGED <<snap, cached, cont, used, an>> /\ err' = FALSE
 \* ---- reconfigurations (never touch the cache: the code recomputes lazily) ----
@@ -58,22 +70,30 @@ SetBackend(b) == Kind = "sampler" /\ cfg.be # b /\ cfg' = [cfg EXCEPT !.be = b] 
 SetPostSelect(p) == Kind = "quick" /\ cfg.ps # p /\ cfg' = [cfg EXCEPT !.ps = p] /\ UNCHANGED w /\ last' = <<"set_ps", p>> /\ Frame
 MutatePostSelect == Kind = "quick" /\ MutatePS /\ w.psc = 0 /\ w' = [w EXCEPT !.psc = 1] /\ UNCHANGED cfg /\ last' = <<"mutate_ps", 0>> /\ Frame
 SetPnr(p) == Kind = "quick" /\ cfg.pnr # p /\ cfg' = [cfg EXCEPT !.pnr = p] /\ UNCHANGED w /\ last' = <<"set_pnr", p>> /\ Frame
+\* the shared Source / Detector objects: assigned, then modified IN PLACE
+UseSharedSource(x) == Kind = "sampler" /\ cfg.src # x /\ cfg' = [cfg EXCEPT !.src = x] /\ UNCHANGED w /\ last' = <<"use_shared_source", x>> /\ Frame
+MutateSource(f, v) == Kind = "sampler" /\ w[f] # v /\ w' = [w EXCEPT ![f] = v] /\ UNCHANGED cfg /\ last' = <<"mutate_source", <<f, v>>>> /\ Frame
+UseSharedDetector(x) == Kind = "sampler" /\ cfg.det # x /\ cfg' = [cfg EXCEPT !.det = x] /\ UNCHANGED w /\ last' = <<"use_shared_detector", x>> /\ Frame
+MutateDetector(v) == Kind = "sampler" /\ w.deff # v /\ w' = [w EXCEPT !.deff = v] /\ UNCHANGED cfg /\ last' = <<"mutate_detector", v>> /\ Frame
+\* the Analyzer's PostSelection object, modified in place between two analyze() calls
+MutateAnalyzerPS == Kind = "analyzer" /\ w.aps = 0 /\ w' = [w EXCEPT !.aps = 1] /\ UNCHANGED cfg /\ last' = <<"mutate_analyzer_ps", 0>> /\ Frame
 
 \* ---- reads ----
 Stale == snap = <<>> \/ snap # SnapOf
 Recompute == snap' = SnapOf /\ cached' = DistKey /\ cont' = DistKey
 \* probability_distribution
+Keyed(name, k) == IF name = "read_dist" THEN k ELSE <<k, IF Kind = "sampler" /\ name # "sample_n_out" THEN DetTok ELSE 1>>   \* sample_N_outputs ignores the efficiency
 ReadDist(name) ==
    /\ Kind \in {"sampler", "quick"}
-   /\ IF Stale THEN Recompute /\ used' = DistKey ELSE UNCHANGED <<snap, cached, cont>> /\ used' = cached
+   /\ IF Stale THEN Recompute /\ used' = Keyed(name, DistKey) ELSE UNCHANGED <<snap, cached, cont>> /\ used' = Keyed(name, cached)
    /\ UNCHANGED <<w, cfg, an>> /\ err' = FALSE /\ last' = <<name, 0>>
 \* continuous_distribution, used by sample()
 ReadCont ==
    /\ Kind \in {"sampler", "quick"}
    /\ IF Kind = "quick" /\ Variant = "pinned"
       THEN /\ UNCHANGED <<snap, cached, cont>>               \* returned as is, never re-checked
-           /\ IF cont = <<>> THEN err' = TRUE /\ used' = <<>> ELSE err' = FALSE /\ used' = cont
-      ELSE /\ IF Stale THEN Recompute /\ used' = DistKey ELSE UNCHANGED <<snap, cached, cont>> /\ used' = cont
+           /\ IF cont = <<>> THEN err' = TRUE /\ used' = <<>> ELSE err' = FALSE /\ used' = Keyed("sample", cont)
+      ELSE /\ IF Stale THEN Recompute /\ used' = Keyed("sample", DistKey) ELSE UNCHANGED <<snap, cached, cont>> /\ used' = Keyed("sample", cont)
            /\ err' = FALSE
    /\ UNCHANGED <<w, cfg, an>> /\ last' = <<"sample", 0>>
 \* ---- Analyzer: result attributes ----
@@ -81,20 +101,29 @@ Analyze(withExp) ==
    /\ Kind = "analyzer"
    /\ an' = [has |-> (an.has \/ withExp),
              res |-> IF Variant = "pinned" THEN (an.has \/ withExp) ELSE withExp,    \* does the returned result carry error_rate?
-             exp |-> withExp]
+             exp |-> withExp,
+             psused |-> w.aps]           \* the outputs are filtered with the post-selection rules as they are NOW (no cache)
    /\ UNCHANGED <<w, cfg, snap, cached, cont, used>> /\ err' = FALSE /\ last' = <<"analyze", IF withExp THEN 1 ELSE 0>>
 
-Next == \/ Kind # "analyzer" /\ \E c \in Circs : SetCircuit(c) \/ EditCircuit(c)
-        \/ Kind # "analyzer" /\ \E v \in 1..2 : SetParam(v) \/ SetInput(v) \/ SetSource(v) \/ SetBackend(v)
-        \/ \E p \in 0..1 : SetPostSelect(p) \/ SetPnr(p)
-        \/ MutatePostSelect
+Next == \/ Kind # "analyzer" /\ "circuit" \in Feat /\ \E c \in Circs : SetCircuit(c)
+        \/ Kind # "analyzer" /\ "edit" \in Feat /\ \E c \in Circs : EditCircuit(c)
+        \/ Kind # "analyzer" /\ "param" \in Feat /\ \E v \in 1..2 : SetParam(v)
+        \/ Kind # "analyzer" /\ "input" \in Feat /\ \E v \in 1..2 : SetInput(v)
+        \/ "source" \in Feat /\ \E v \in 1..2 : SetSource(v)
+        \/ "backend" \in Feat /\ \E v \in 1..2 : SetBackend(v)
+        \/ "ps" \in Feat /\ \E p \in 0..3 : SetPostSelect(p)
+        \/ "pnr" \in Feat /\ \E p \in 0..1 : SetPnr(p)
+        \/ "shared_source" \in Feat /\ ((\E p \in 0..1 : UseSharedSource(p)) \/ \E v \in 1..2 : MutateSource("sb", v) \/ MutateSource("sp", v))
+        \/ "shared_detector" \in Feat /\ ((\E p \in 0..1 : UseSharedDetector(p)) \/ \E v \in 1..2 : MutateDetector(v))
+        \/ "ps" \in Feat /\ MutatePostSelect
+        \/ "analyzer_ps" \in Feat /\ MutateAnalyzerPS
         \/ ReadDist("read_dist") \/ ReadDist("sample_n_in") \/ ReadDist("sample_n_out") \/ ReadCont
         \/ \E x \in BOOLEAN : Analyze(x)
 Spec == Init /\ [][Next]_vars
 
 Reads == {"read_dist", "sample_n_in", "sample_n_out", "sample"}
 \* C11: a read returns exactly what a freshly created object with the same settings would, and never raises
-Fresh == [][last'[1] \in Reads => (~err' /\ used' = DistKey')]_vars
+Fresh == [][\A nm \in Reads : last'[1] = nm => (~err' /\ used' = Keyed(nm, DistKey)')]_vars
 \* C11: an analysis result contains only quantities computed by that call
-AnalysisOwn == [][last'[1] = "analyze" => (an'.res = an'.exp)]_vars
+AnalysisOwn == [][last'[1] = "analyze" => (an'.res = an'.exp /\ an'.psused = w'.aps)]_vars
 =============================================================================
